@@ -178,7 +178,7 @@ def random_basis_descs(rng, n, qn_mode="none", kinds=None):
 TREE_SHAPES = ("random", "chain", "star", "caterpillar", "binary", "bushy")
 
 
-def random_tree_spec(rng, descs, n_dummy=None, max_group=3, shape=None, max_children=4):
+def random_tree_spec(rng, descs, n_dummy=None, max_group=3, shape=None, max_children=6):
     """Random rooted tree over the given (non-dummy) basis descs.
 
     Returns (descs2, spec): `descs2` = descs + appended dummy descs; spec = dict(
@@ -188,7 +188,8 @@ def random_tree_spec(rng, descs, n_dummy=None, max_group=3, shape=None, max_chil
                   holds exactly one dummy basis), 1..max_group sets per physical node,
         shape   : the shape name used).
     Node ids are arbitrary labels; node 0 is the root.  Dummy nodes may end up as root, internal
-    nodes or leaves."""
+    nodes or leaves.  No node gets more than `max_children` children (environment contractions
+    of the library become slow beyond ~5 because of opt_einsum's path search)."""
     qn_size = desc_qn_size(descs[0]) if descs else 1
     idx = list(rng.permutation(len(descs)))
     groups = []
@@ -212,6 +213,7 @@ def random_tree_spec(rng, descs, n_dummy=None, max_group=3, shape=None, max_chil
     parent = [-1] * n
     nchild = [0] * n
     for i in range(1, n):
+        cand = [j for j in range(i) if nchild[j] < max_children]
         if shape == "chain":
             p = i - 1
         elif shape == "star":
@@ -223,8 +225,9 @@ def random_tree_spec(rng, descs, n_dummy=None, max_group=3, shape=None, max_chil
         elif shape == "bushy":
             p = int(rng.integers(0, min(i, 2)))
         else:
-            cand = [j for j in range(i) if nchild[j] < max_children]
             p = int(cand[int(rng.integers(len(cand)))])
+        if nchild[p] >= max_children:      # arity cap: overflow goes to the first node with room
+            p = cand[0]
         parent[i] = p
         nchild[p] += 1
     children = [[] for _ in range(n)]
